@@ -35,6 +35,8 @@ ASSUMPTIONS = [
 _SAMPLES = [0]
 LOWERED_AWAY = ("snax.cluster_sync_op", "memref.dealloc")  # snax-to-func replaces / erases these (tags are lost)
 
+# Narrow signatures of the three defects this check found. VIEW_SIG is a known finding (DESIGN 6.11). The other two were repaired in
+# /repo (a5fc790, 344e509); their signatures stay as regression classes (not listed as known, so a reappearance is a VIOLATION).
 VIEW_SIG = "insert-sync-barrier: conflict through distinct views of one root buffer"
 CROSS_DEPTH_SIG = "insert-sync-barrier: loop-carried conflict between ops that are not in the same loop body"
 ZERO_TRIP_SIG = "insert-sync-barrier: conflict left open by a barrier inside a loop that runs zero times"
